@@ -1,4 +1,4 @@
-import PycModel.Properties.Tables
+import PycModel.Properties.TablesPrec
 import PycModel.Generator
 /-!
 # Table obligations of the generator model (used by C07 / C08 only)
